@@ -7,7 +7,7 @@ from ..engine import Fail, Stratum
 from .. import exact as X, bridge as B, gen, admit as A
 
 ID = "C10"
-USE_WITNESS = True
+WITNESS = ()
 RULE = (
     "the five documented pairs (Point-Point, Point-Line, Line-Line, Point-Plane, Line-Plane) in both "
     "argument orders; second operand constructed from the first by relation recipe (on/off/free, collinear, "
